@@ -133,6 +133,7 @@ func main() {
 	tier := fs.String("tier", envOr("VERIF_TIER", "quick"), "quick|thorough")
 	seed := fs.Uint64("seed", envU64("VERIF_SEED", 1), "base seed")
 	replay := fs.String("replay", "", "replay file")
+	minimiseF := fs.String("minimise", "", "minimise this replay file (plan, then schedule) and print the result path")
 	budget := fs.Int("budget", 0, "seconds of simulation (0 = tier default)")
 	workers := fs.Int("workers", 16, "worker processes")
 	keep := fs.Bool("keep", false, "keep scratch dir")
@@ -166,6 +167,29 @@ func main() {
 	switch {
 	case prop == "selftest":
 		code = d.selftest()
+	case *minimiseF != "":
+		b, err := os.ReadFile(*minimiseF)
+		if err != nil {
+			fatal2("%v", err)
+		}
+		var rf struct {
+			Prop      string      `json:"property"`
+			Seed      uint64      `json:"seed"`
+			Violation []Violation `json:"violations"`
+			Crash     string      `json:"crash"`
+		}
+		if json.Unmarshal(b, &rf) != nil {
+			fatal2("replay file does not parse")
+		}
+		d.prop = rf.Prop
+		f := found{seed: rf.Seed, viol: rf.Violation, crash: rf.Crash, replay: *minimiseF}
+		os.MkdirAll(filepath.Join(verifDir, "replays"), 0o755)
+		if p := d.confirmAndMinimise(f, false); p != "" {
+			fmt.Println("minimised:", p)
+		} else {
+			fmt.Println("did not reproduce")
+			code = 2
+		}
 	case *replay != "":
 		code = d.replayFile(*replay)
 	default:
